@@ -167,7 +167,7 @@ impl Prop for C06 {
             flushes,
             buffered,
             gate_calls: vec![],
-            trace: false,
+            trace: rng.chance(1, 8),
             inbound,
             reads,
             writes,
@@ -203,6 +203,18 @@ impl Prop for C06 {
     fn preludes(&self, sc: &StreamScenario) -> Vec<StreamScenario> {
         crate::streamprop::stream_preludes(sc)
     }
+    fn repro_variants(&self, sc: &StreamScenario) -> Vec<StreamScenario> {
+        // tracing keeps a process-wide callsite cache: a case found with `trace: false` while
+        // another worker had a subscriber reproduces on its own only with `trace: true`
+        if sc.trace {
+            vec![]
+        } else {
+            let mut v = sc.clone();
+            v.trace = true;
+            vec![v]
+        }
+    }
+
     fn rule(&self) -> String {
         "Each case is one session in which the application calls write(p) for a sequence of encoder-accepted packets (all kinds and sizes, never a TINY_NONE/0 so that library-initiated keep-alive replies stay attributable), interleaved with reads of inbound keep-alives; the write half of the scripted transport accepts k in 1..=offered bytes per call (biased to 1 and to large k) or answers Pending. Oracle: every byte the peer receives must continue either the frame of the write in flight or a keep-alive reply, frames never interleave, and a write that returns Ok has its whole frame on the wire. Non-trivial = at least one short write or Pending fired; distinct by trace signature.".into()
     }
